@@ -11,6 +11,7 @@ from ..astutil import call_name, walk_no_nested, is_const, kw
 from ..cfg import cfg_of
 from ..loader import Program, AnalysisError, unparse
 from ..report import Check
+from ..scanner_norm import normalised_scanner
 
 PROP = 'C08'
 
@@ -243,7 +244,17 @@ def _classify(path, bufname):
 
 def extract_table(chk, prog):
     m = prog.mod('nodeio')
-    f = m.func('parse_smtlib')
+    # normal form: canonical names, span idioms (index scan / str.find with
+    # slices) rewritten to character loops; their bounds are judged there
+    f, verdicts, notes = normalised_scanner(m)
+    chk.rule('C08.R6', 'scans written with slices (index scan, str.find) '
+             'delimit the same lexeme and resume at the same position as '
+             'the character loop they abbreviate')
+    for v in verdicts:
+        chk.check('C08.R6', 'nodeio.parse_smtlib', v.what, v.ok, v.msg,
+                  loc=m.loc(v.node), nontrivial=True)
+    for nt in notes:
+        chk.info('C08.R6', nt)
     cfg = cfg_of(f)
     ex = Explorer(cfg, m)
     # module-level constant tuples/sets of characters (neutral refactoring)
@@ -402,7 +413,9 @@ def rule_r1(chk, m, f, top, states, table):
     def expect(state, cname, la):
         if state == 'TOKEN':
             if cname in WS:
-                return {'drop end'}
+                # consumed here, or left for the top level which skips it
+                # (TOP x WS = skip is an armed cell of its own)
+                return [{'drop end'}, {'drop pushback end'}]
             if cname in ('LP', 'RP', 'SEMI'):
                 return {'drop pushback end'}
             if cname in ('DQ', 'BAR'):
@@ -440,7 +453,11 @@ def rule_r1(chk, m, f, top, states, table):
                              'lexemes)')
                     continue
                 # a string's closing quote at EOF cannot look ahead
-                ok = got == want
+                if isinstance(want, list):
+                    ok = got in want
+                    want = want[0]
+                else:
+                    ok = got == want
                 msg = (f'in state {state}, class {cname} '
                        f'({CLASSES[cname]!r}, {la}) is handled as '
                        f'{sorted(got)}; the standard prescribes '
